@@ -229,7 +229,13 @@ Outcome run_workload(const Spec& s, Env& env, int phase, bool retry_failed_call 
         bool ok = s.target == gen::Target::kA64 ? gen::build_a64_function(static_cast<a64::Compiler&>(e), fp, env.eh) : gen::build_x86_function(static_cast<x86::Compiler&>(e), fp, env.eh);
         if (!ok) { out.first_error = env.eh.first != Error::kOk ? env.eh.first : make_error(Error::kOutOfMemory); return out; }
       }
-      STEP(e.finalize());
+      {
+        Error ferr = e.finalize();
+        // whether finalize() failed or not: afterwards no virtual register may reference memory of the register allocator
+        // (its arena is reset when the pass returns; set_stack_size() and a later compilation would follow the pointer)
+        for (VirtReg* v : static_cast<BaseCompiler&>(e).virt_regs()) SIM_CHECK(!v->has_work_reg(), "c15:dangling-work-reg", "finalize() returned %u and virtual register %u still references a work register of the (reset) allocator arena", unsigned(ferr), v->id());
+        STEP(ferr);
+      }
       out.output = gen::snapshot(code);
       if (s.kind == kWJit) {
         typedef uint64_t (*Fn)(uint64_t, uint64_t);
@@ -432,7 +438,7 @@ void faulted_run(const Plan& plan, const Spec& s, const Outcome& golden, const s
   // ---- aftermath ---------------------------------------------------------------------------------------------
   // reinit() documents that it keeps the base address the holder had - which relocate_to_base() (also called by
   // JitRuntime::add) has assigned by then - so the reinit aftermath is only comparable for workloads that never relocate.
-  if (aftermath == 2 && s.kind != kWCompiler) aftermath = 1;
+  // (that restriction became unnecessary: reinit() now restores the base address given to init(), see known_findings.txt)
   Op clean; clean.kind = kWorkload;
   sim::begin_op(clean, 2);
   if (aftermath == 0 || (s.kind == kWChoreography && aftermath == 2)) {
